@@ -1,5 +1,7 @@
 (* C16 correspondence: the reference allocation model against the number of advance requests the
-   real server sends, and the survival monitor over barrage observations. *)
+   real server sends, and the survival monitor over barrage observations.  CBarrage cases whose kind
+   starts with "client:" are observations of the frpc child (driver clientbarrage: a real frpc against a
+   scripted fake frps); the others are observations of the frps child. *)
 From FRP Require Export Corr.Common Model.Alloc.
 Open Scope Z_scope.
 
@@ -21,3 +23,7 @@ Definition check_case (c : case) : Z :=
 
 Definition clamped_low (c : case) : bool := match c with CAlloc p _ _ _ => p <? 0 | _ => false end.
 Definition clamped_high (c : case) : bool := match c with CAlloc p m _ _ => m <? p | _ => false end.
+
+(* observations of the client process (kind "client:...") and, among them, those taken right after a watchdog run *)
+Definition client_case (c : case) : bool := match c with CBarrage k _ _ _ => String.prefix "client:" k | _ => false end.
+Definition client_login_case (c : case) : bool := match c with CBarrage k _ _ _ => String.prefix "client:login" k | _ => false end.
